@@ -5,7 +5,7 @@
 //! case <name> counter <cap> [probe]   acquire h | drop g | dropP g | avail h w | clone h | total h | dropH h | dbg h | dbgG g
 //! case <name> lw [default]            reg w | wake | take | dbg
 //! case <name> chan                    send i x | ssend i x | clone i | dropS i | dropSP i | close i | poll w | recv w | recvNew w |
-//!                                     recvDrop | rsender | dropR | dropRP | sready i w | sflush i w | sclose i w | dbgS i | dbgR
+//!                                     recvDrop | rsender | dropR | dropRP | b <op> | clonefrom <a|b> i <a|b> j | sready i w | sflush i w | sclose i w | dbgS i | dbgR
 //! ```
 //! Every observation ends in ` woke=<ids>`: which of the counting wakers `0..NW` were woken by this
 //! operation (ascending, with multiplicity; `-` = none).
@@ -266,7 +266,9 @@ enum Eng {
     Idle,
     Counter(CounterEng),
     Lw(LwEng),
-    Chan(ChanEng),
+    /// two independent channels per case: `b <op>` addresses the second one, `clonefrom` moves a
+    /// sender handle from one to the other (or within one)
+    Chan(Box<[ChanEng; 2]>),
 }
 
 struct T3 {
@@ -328,18 +330,20 @@ fn teardown(eng: &mut Eng, wk: &mut Wakers, rep: &mut Report, t3: &mut T3) {
                 t3.fail(rep, "C17", format!("dropping the LocalWaker panicked: {m}"));
             }
         }
-        Eng::Chan(mut e) => {
-            e.drop_fut();
-            for i in 0..e.senders.len() {
-                if let Some(s) = e.senders[i].take() {
-                    if let Err(m) = catch(move || drop(s)) {
-                        t3.fail(rep, "C16", format!("dropping sender {i} at the end of the case panicked: {m}"));
+        Eng::Chan(pair) => {
+            for mut e in *pair {
+                e.drop_fut();
+                for i in 0..e.senders.len() {
+                    if let Some(s) = e.senders[i].take() {
+                        if let Err(m) = catch(move || drop(s)) {
+                            t3.fail(rep, "C16", format!("dropping sender {i} at the end of the case panicked: {m}"));
+                        }
                     }
                 }
-            }
-            if let Some(rx) = e.rx.take() {
-                if let Err(m) = catch(move || drop(rx)) {
-                    t3.fail(rep, "C16", format!("dropping the receiver at the end of the case panicked: {m}"));
+                if let Some(rx) = e.rx.take() {
+                    if let Err(m) = catch(move || drop(rx)) {
+                        t3.fail(rep, "C16", format!("dropping the receiver at the end of the case panicked: {m}"));
+                    }
                 }
             }
         }
@@ -380,16 +384,19 @@ fn run(a: &Args) {
                 ["case", _, "lw"] => Some(Eng::Lw(LwEng { lw: LocalWaker::new(), outstanding: None })),
                 ["case", _, "lw", "default"] => Some(Eng::Lw(LwEng { lw: LocalWaker::default(), outstanding: None })),
                 ["case", _, "chan"] => {
-                    let (tx, rx) = mpsc::channel::<u32>();
-                    Some(Eng::Chan(ChanEng {
-                        senders: vec![Some(tx)],
-                        live_senders: 1,
-                        fut: None,
-                        rx: Some(Box::new(rx)),
-                        queue: VecDeque::new(),
-                        closed: false,
-                        parked: None,
-                    }))
+                    let one = || {
+                        let (tx, rx) = mpsc::channel::<u32>();
+                        ChanEng {
+                            senders: vec![Some(tx)],
+                            live_senders: 1,
+                            fut: None,
+                            rx: Some(Box::new(rx)),
+                            queue: VecDeque::new(),
+                            closed: false,
+                            parked: None,
+                        }
+                    };
+                    Some(Eng::Chan(Box::new([one(), one()])))
                 }
                 _ => None,
             };
@@ -405,7 +412,7 @@ fn run(a: &Args) {
                 Eng::Idle => None,
                 Eng::Counter(e) => counter_op(e, &ws, &mut wk, &mut rep, &mut t3),
                 Eng::Lw(e) => lw_op(e, &ws, &mut wk, &mut rep, &mut t3),
-                Eng::Chan(e) => chan_op(e, &ws, &mut wk, &mut rep, &mut t3),
+                Eng::Chan(pair) => chan_pair_op(pair, &ws, &mut wk, &mut rep, &mut t3),
             });
             match r {
                 Ok(Some(s)) => s,
@@ -727,6 +734,84 @@ fn chan_debug(who: &str, e: &ChanEng) -> String {
     )
 }
 
+/// the wake-up rule, applied after every operation that goes to one channel
+fn chan_wakes(e: &mut ChanEng, op: &str, must_wake: Option<&'static str>, wk: &mut Wakers, rep: &mut Report, t3: &mut T3) -> Vec<usize> {
+    let woke = wk.delta();
+    if e.rx.is_some() {
+        // while the receiver lives: exactly the parked receiver is woken, exactly once, exactly by
+        // the events the property names — and nobody else, ever
+        let want: Vec<usize> = match (must_wake, e.parked) {
+            (Some(_), Some(w)) => vec![w],
+            _ => vec![],
+        };
+        if woke != want {
+            match (must_wake, e.parked) {
+                (Some(why), Some(w)) => t3.fail(
+                    rep,
+                    "C16",
+                    format!(
+                        "receiver parked with waker {w} (it returned Pending) was woken {} times by {why}; woke={woke:?}",
+                        woke.iter().filter(|x| **x == w).count()
+                    ),
+                ),
+                _ => t3.fail(
+                    rep,
+                    "C16",
+                    format!("`{}` woke {woke:?} with the receiver parked={:?}: the property names no reason to wake anybody here", op, e.parked),
+                ),
+            }
+        }
+        if must_wake.is_some() {
+            e.parked = None;
+        }
+    }
+    if let Some(w) = e.parked {
+        if woke.contains(&w) {
+            e.parked = None;
+        }
+    }
+    woke
+}
+
+/// `case … chan` holds two channels: `b <op>` goes to the second one, anything else to the first;
+/// `clonefrom <a|b> i <a|b> j` is `senders[i].clone_from(&senders[j])` — the handle `i` of one channel
+/// becomes a further sender of the (same or other) channel of `j`.  `Clone::clone_from` must behave as
+/// `*self = source.clone()`: the old handle is **dropped** — if it was the last sender of its channel
+/// the parked receiver there is woken and the stream ends — and the channel of `j` gets one more
+/// sender (answer: `sender <new id in the channel of j>`).
+fn chan_pair_op(pair: &mut [ChanEng; 2], ws: &[&str], wk: &mut Wakers, rep: &mut Report, t3: &mut T3) -> Option<String> {
+    match ws {
+        ["b", rest @ ..] if !rest.is_empty() && rest[0] != "b" && rest[0] != "clonefrom" => chan_op(&mut pair[1], rest, wk, rep, t3),
+        ["b", ..] => None,
+        ["clonefrom", ci, i, cj, j] => {
+            let side = |c: &str| match c {
+                "a" => Some(0usize),
+                "b" => Some(1usize),
+                _ => None,
+            };
+            let (ki, kj) = (side(ci)?, side(cj)?);
+            let alive = |e: &ChanEng, i: usize| i < e.senders.len() && e.senders[i].is_some();
+            let i = num(i).filter(|i| alive(&pair[ki], *i))?;
+            let j = num(j).filter(|j| alive(&pair[kj], *j))?;
+            if ki == kj && i == j {
+                return None; // `a.clone_from(&a)` does not borrow-check
+            }
+            let mut h = pair[ki].senders[i].take().unwrap();
+            pair[ki].live_senders -= 1;
+            h.clone_from(pair[kj].senders[j].as_ref().unwrap());
+            pair[kj].senders.push(Some(h));
+            pair[kj].live_senders += 1;
+            let id = pair[kj].senders.len() - 1;
+            // for the channel the handle left, this was a sender drop
+            let must_wake = (pair[ki].n_senders() == 0).then_some("the last sender being overwritten by clone_from (its old value is dropped)");
+            let woke = chan_wakes(&mut pair[ki], "clonefrom", must_wake, wk, rep, t3);
+            // the handle must now feed the channel of `j`: checked by whatever is sent through it later
+            Some(format!("sender {id}") + &woke_str(&woke))
+        }
+        _ => chan_op(&mut pair[0], ws, wk, rep, t3),
+    }
+}
+
 fn chan_op(e: &mut ChanEng, ws: &[&str], wk: &mut Wakers, rep: &mut Report, t3: &mut T3) -> Option<String> {
     // Some(reason) when the property demands that the parked receiver is woken by this operation
     let mut must_wake: Option<&'static str> = None;
@@ -900,40 +985,7 @@ fn chan_op(e: &mut ChanEng, ws: &[&str], wk: &mut Wakers, rep: &mut Report, t3: 
         }
         _ => return None,
     };
-    let woke = wk.delta();
-    if e.rx.is_some() {
-        // while the receiver lives: exactly the parked receiver is woken, exactly once, exactly by
-        // the events the property names — and nobody else, ever
-        let want: Vec<usize> = match (must_wake, e.parked) {
-            (Some(_), Some(w)) => vec![w],
-            _ => vec![],
-        };
-        if woke != want {
-            match (must_wake, e.parked) {
-                (Some(why), Some(w)) => t3.fail(
-                    rep,
-                    "C16",
-                    format!(
-                        "receiver parked with waker {w} (it returned Pending) was woken {} times by {why}; woke={woke:?}",
-                        woke.iter().filter(|x| **x == w).count()
-                    ),
-                ),
-                _ => t3.fail(
-                    rep,
-                    "C16",
-                    format!("`{}` woke {woke:?} with the receiver parked={:?}: the property names no reason to wake anybody here", ws[0], e.parked),
-                ),
-            }
-        }
-        if must_wake.is_some() {
-            e.parked = None;
-        }
-    }
-    if let Some(w) = e.parked {
-        if woke.contains(&w) {
-            e.parked = None;
-        }
-    }
+    let woke = chan_wakes(e, ws[0], must_wake, wk, rep, t3);
     Some(head + &woke_str(&woke))
 }
 
@@ -1552,6 +1604,299 @@ fn gen_c16_populations(w: &mut dyn Write, thorough: bool, n: &mut u64) {
     }
 }
 
+/// C16 large BACKLOGS: `n` messages are accepted before the receiver looks, then everything is taken
+/// out again — exactly once, in order, nothing lost, and then the receiver parks (open channel) or the
+/// stream ends (closed / last sender gone).  `shape`:
+/// * `drain`  — send n, take n + 1 (alternating poll_next / recv());
+/// * `closed` — send n, close, take n + 1, a send that must fail;
+/// * `gone`   — send n, drop the only sender, take n + 1;
+/// * `inter`  — send n, take 1, send 5, take half, send 3, take all + 1 (the backlog stays long while the
+///   receiver is already taking: a pop must not disturb what is still queued).
+fn gen_chan_backlog(w: &mut dyn Write, n: usize, shape: &str, k: &mut u64) {
+    let mut ops: Vec<String> = vec!["clone 0".into()];
+    let mut msg = 0usize;
+    let mut queued = 0usize;
+    let mut asks = 0usize;
+    let send = |ops: &mut Vec<String>, msg: &mut usize, queued: &mut usize, cnt: usize| {
+        for _ in 0..cnt {
+            *msg += 1;
+            *queued += 1;
+            ops.push(format!("{} {} {msg}", if *msg % 5 == 0 { "ssend" } else { "send" }, *msg % 2));
+        }
+    };
+    let take = |ops: &mut Vec<String>, asks: &mut usize, queued: &mut usize, cnt: usize| {
+        for _ in 0..cnt {
+            *asks += 1;
+            *queued = queued.saturating_sub(1);
+            ops.push(match *asks % 7 {
+                0 => "recvNew 1".to_string(),
+                1 | 4 => "recv 2".to_string(),
+                _ => "poll 3".to_string(),
+            });
+        }
+    };
+    send(&mut ops, &mut msg, &mut queued, n);
+    match shape {
+        "drain" => {
+            take(&mut ops, &mut asks, &mut queued, n + 1);
+            send(&mut ops, &mut msg, &mut queued, 1);
+            take(&mut ops, &mut asks, &mut queued, 2);
+        }
+        "closed" => {
+            ops.push("close 1".into());
+            take(&mut ops, &mut asks, &mut queued, n + 1);
+            ops.push("send 0 0".into());
+        }
+        "gone" => {
+            ops.push("dropS 0".into());
+            ops.push("dropSP 1".into());
+            take(&mut ops, &mut asks, &mut queued, n + 1);
+        }
+        _ => {
+            take(&mut ops, &mut asks, &mut queued, 1);
+            send(&mut ops, &mut msg, &mut queued, 5);
+            let half = queued / 2;
+            take(&mut ops, &mut asks, &mut queued, half);
+            send(&mut ops, &mut msg, &mut queued, 3);
+            let rest = queued;
+            take(&mut ops, &mut asks, &mut queued, rest + 1);
+        }
+    }
+    *k += 1;
+    emit(w, &format!("case bl-{shape}-{n} chan"), &ops);
+}
+
+fn gen_c16_backlogs(w: &mut dyn Write, thorough: bool, k: &mut u64) {
+    // around every power of two: 2^p - 1 .. 2^p + 2 (a VecDeque grows by doubling), and a few round numbers
+    // (the model appends to a List: a backlog of n costs n^2/2 there, which bounds the thorough sizes)
+    let top = if thorough { 13 } else { 12 };
+    let mut sizes: Vec<usize> = vec![0, 1, 2, 3, 5, 6, 7, 40, 100, 1000, 3000];
+    for p in 3..=top {
+        for d in [-1i64, 0, 1, 2] {
+            sizes.push(((1i64 << p) + d) as usize);
+        }
+    }
+    if thorough {
+        sizes.extend([10000, 16383, 16384, 16385]);
+    }
+    for &n in &sizes {
+        for shape in ["drain", "inter"] {
+            gen_chan_backlog(w, n, shape, k);
+        }
+        if n <= 1100 || (thorough && n <= 4100) {
+            for shape in ["closed", "gone"] {
+                gen_chan_backlog(w, n, shape, k);
+            }
+        }
+    }
+}
+
+/// C16, two channels and `clone_from`: directed scenarios — a receiver parked (through either receive
+/// path) on channel `x` whose last / not last sender is overwritten by `clone_from` with a sender of the
+/// other channel (open, closed, receiver gone) or of the same one; afterwards `x` is asked again, the
+/// moved handle is used on its new channel, and the other direction is exercised too.
+fn gen_c16_clonefrom_scenarios(w: &mut dyn Write, k: &mut u64) {
+    for park in ["poll 1", "recv 1", "recv 2\nrecvNew 1", "send 0 9\npoll 1\npoll 1"] {
+        for extra_sender in [false, true] {
+            for other in ["", "b close 0", "b dropR", "b poll 2", "b send 0 4"] {
+                for (x, y) in [("a", "b"), ("b", "a")] {
+                    let on = |side: &str, op: &str| if side == "a" { op.to_string() } else { format!("b {op}") };
+                    let mut ops: Vec<String> = vec![];
+                    if extra_sender {
+                        ops.push(on(x, "clone 0"));
+                    }
+                    ops.extend(park.split('\n').map(|o| on(x, o)));
+                    if !other.is_empty() {
+                        // `other` is written for y = b; mirror it when y = a
+                        let o = other.strip_prefix("b ").unwrap();
+                        ops.push(on(y, o));
+                    }
+                    ops.push(format!("clonefrom {x} 0 {y} 0"));
+                    ops.push(on(x, "poll 1"));
+                    ops.push(on(x, "poll 1"));
+                    // the moved handle is sender 1 of y now
+                    ops.push(on(y, "send 1 7"));
+                    ops.push(on(y, "poll 3"));
+                    ops.push(on(y, "poll 3"));
+                    ops.push(on(y, "dropS 0"));
+                    ops.push(on(y, "dropSP 1"));
+                    ops.push(on(y, "poll 3"));
+                    if extra_sender {
+                        // x is left with sender 1: within one channel nobody is ever woken by clone_from
+                        ops.push(on(x, "clone 1"));
+                        ops.push(format!("clonefrom {x} 1 {x} 2"));
+                        ops.push(on(x, "send 3 8"));
+                        ops.push(on(x, "rsender"));
+                        ops.push(format!("clonefrom {x} 2 {x} 4"));
+                        ops.push(on(x, "send 5 10"));
+                        ops.push(on(x, "recv 0"));
+                        ops.push(on(x, "recv 0"));
+                        ops.push(on(x, "dbgR"));
+                    }
+                    *k += 1;
+                    emit(w, &format!("case sc-cf-{k} chan"), &ops);
+                }
+            }
+        }
+    }
+}
+
+/// C16, two channels, exhaustive: every sequence of exactly `len` applicable operations over
+/// {poll 0 | send (oldest sender) | clone (oldest) | dropS (oldest, newest) | close (oldest) | dropR} on
+/// either channel and `clonefrom` of the oldest / newest sender of one channel from the oldest sender
+/// of the other one or of the same one; at most 3 live senders per channel.
+fn gen_chan_pair_exhaustive(w: &mut dyn Write, len: usize, n: &mut u64) {
+    #[derive(Clone)]
+    struct Side {
+        alive: Vec<usize>,
+        next: usize,
+        rx: bool,
+    }
+    struct St {
+        ops: Vec<String>,
+        ch: [Side; 2],
+        msg: usize,
+    }
+    fn rec(w: &mut dyn Write, st: &mut St, len: usize, n: &mut u64) {
+        if st.ops.len() == len {
+            *n += 1;
+            writeln!(w, "case ch2-{} chan", *n).unwrap();
+            for o in &st.ops {
+                writeln!(w, "{o}").unwrap();
+            }
+            return;
+        }
+        let names = ["a", "b"];
+        for k in 0..2 {
+            let pre = if k == 0 { "" } else { "b " };
+            let side = st.ch[k].clone();
+            if side.rx {
+                st.ops.push(format!("{pre}poll {k}"));
+                rec(w, st, len, n);
+                st.ops.pop();
+                st.ops.push(format!("{pre}dropR"));
+                st.ch[k].rx = false;
+                rec(w, st, len, n);
+                st.ch[k].rx = true;
+                st.ops.pop();
+            }
+            if let Some(&i) = side.alive.first() {
+                st.msg += 1;
+                st.ops.push(format!("{pre}send {i} {}", st.msg));
+                rec(w, st, len, n);
+                st.ops.pop();
+                st.msg -= 1;
+                st.ops.push(format!("{pre}close {i}"));
+                rec(w, st, len, n);
+                st.ops.pop();
+                if side.alive.len() < 3 {
+                    st.ops.push(format!("{pre}clone {i}"));
+                    st.ch[k].alive.push(side.next);
+                    st.ch[k].next += 1;
+                    rec(w, st, len, n);
+                    st.ch[k] = side.clone();
+                    st.ops.pop();
+                }
+            }
+            let mut cands: Vec<usize> = vec![];
+            if !side.alive.is_empty() {
+                cands.push(0);
+                if side.alive.len() > 1 {
+                    cands.push(side.alive.len() - 1);
+                }
+            }
+            for &pos in &cands {
+                let i = side.alive[pos];
+                st.ops.push(format!("{pre}dropS {i}"));
+                st.ch[k].alive.remove(pos);
+                rec(w, st, len, n);
+                st.ch[k] = side.clone();
+                st.ops.pop();
+                // clone_from: handle i of channel k := a sender of channel t
+                for t in 0..2 {
+                    let other = st.ch[t].clone();
+                    let Some(&j) = other.alive.iter().find(|&&j| !(t == k && j == i)) else { continue };
+                    if t != k && other.alive.len() >= 3 {
+                        continue;
+                    }
+                    st.ops.push(format!("clonefrom {} {i} {} {j}", names[k], names[t]));
+                    st.ch[k].alive.remove(pos);
+                    let id = st.ch[t].next;
+                    st.ch[t].alive.push(id);
+                    st.ch[t].next += 1;
+                    rec(w, st, len, n);
+                    st.ch[k] = side.clone();
+                    if t != k {
+                        st.ch[t] = other;
+                    }
+                    st.ops.pop();
+                }
+            }
+        }
+    }
+    let fresh = Side { alive: vec![0], next: 1, rx: true };
+    let mut st = St { ops: vec![], ch: [fresh.clone(), fresh], msg: 0 };
+    rec(w, &mut st, len, n);
+}
+
+/// C16, two channels, seeded random histories with `clone_from` in both directions and within a channel
+fn gen_chan_pair_random(w: &mut dyn Write, rng: &mut Rng, cases: usize, max_len: usize) {
+    for c in 0..cases {
+        writeln!(w, "case ch2r-{c} chan").unwrap();
+        let mut alive: [Vec<usize>; 2] = [vec![0], vec![0]];
+        let mut next = [1usize, 1];
+        let mut rx = [true, true];
+        let mut msg = 0usize;
+        for _ in 0..rng.range(4, max_len) {
+            let k = rng.below(2);
+            let pre = if k == 0 { "" } else { "b " };
+            let r = rng.below(100);
+            if r < 2 {
+                writeln!(w, "{}", ["b", "b b poll 0", "clonefrom a 0 a 0", "clonefrom c 0 a 0", "b clonefrom a 0 b 0", "clonefrom a 0 b"][rng.below(6)]).unwrap();
+            } else if r < 27 && !alive[k].is_empty() {
+                msg += 1;
+                writeln!(w, "{pre}{} {} {msg}", if rng.chance(1, 4) { "ssend" } else { "send" }, rng.pick(&alive[k])).unwrap();
+            } else if r < 52 {
+                let wk = rng.below(NW);
+                writeln!(w, "{pre}{} {wk}", ["poll", "poll", "recv", "recvNew"][rng.below(4)]).unwrap();
+            } else if r < 60 && !alive[k].is_empty() && alive[k].len() < 4 {
+                writeln!(w, "{pre}clone {}", rng.pick(&alive[k])).unwrap();
+                alive[k].push(next[k]);
+                next[k] += 1;
+            } else if r < 68 && !alive[k].is_empty() {
+                let pos = rng.below(alive[k].len());
+                writeln!(w, "{pre}{} {}", if rng.chance(1, 5) { "dropSP" } else { "dropS" }, alive[k].remove(pos)).unwrap();
+            } else if r < 88 && !alive[k].is_empty() {
+                // clone_from: mostly across the channels
+                let t = if rng.chance(3, 4) { 1 - k } else { k };
+                let pos = rng.below(alive[k].len());
+                let i = alive[k][pos];
+                let cand: Vec<usize> = alive[t].iter().copied().filter(|&j| !(t == k && j == i)).collect();
+                if cand.is_empty() {
+                    writeln!(w, "clonefrom {} {i} {} {}", ["a", "b"][k], ["a", "b"][t], next[t] + 1).unwrap(); // no such source: bad-op
+                    continue;
+                }
+                let j = *rng.pick(&cand);
+                writeln!(w, "clonefrom {} {i} {} {j}", ["a", "b"][k], ["a", "b"][t]).unwrap();
+                alive[k].remove(pos);
+                alive[t].push(next[t]);
+                next[t] += 1;
+            } else if r < 91 && rx[k] && alive[k].len() < 4 {
+                writeln!(w, "{pre}rsender").unwrap();
+                alive[k].push(next[k]);
+                next[k] += 1;
+            } else if r < 95 && !alive[k].is_empty() {
+                writeln!(w, "{pre}close {}", rng.pick(&alive[k])).unwrap();
+            } else if r < 97 && rx[k] {
+                writeln!(w, "{pre}{}", if rng.chance(1, 4) { "dropRP" } else { "dropR" }).unwrap();
+                rx[k] = false;
+            } else {
+                writeln!(w, "{pre}dbgR").unwrap();
+            }
+        }
+    }
+}
+
 /// C16 exhaustive: every sequence of exactly `len` applicable operations with at most
 /// `max_senders` live senders.  `send` through every live sender, `dropS` of every live sender,
 /// `clone`/`close` through the oldest live sender (which one is immaterial: they share the `Rc`),
@@ -1755,6 +2100,9 @@ fn gen_c16(a: &Args, w: &mut dyn Write) {
     let thorough = a.tier == "thorough";
     let mut sc = 0u64;
     gen_c16_scenarios(w, &mut sc);
+    gen_c16_clonefrom_scenarios(w, &mut sc);
+    let mut nb = 0u64;
+    gen_c16_backlogs(w, thorough, &mut nb);
     let mut np = 0u64;
     gen_c16_populations(w, thorough, &mut np);
     let mut n = 0u64;
@@ -1815,9 +2163,13 @@ fn gen_c16(a: &Args, w: &mut dyn Write) {
         },
         &mut nu,
     );
+    // (1e) two channels and clone_from
+    let mut n2 = 0u64;
+    gen_chan_pair_exhaustive(w, if thorough { 5 } else { 4 }, &mut n2);
     let mut rng = Rng::new(a.seed ^ 0x16);
     gen_chan_random(w, &mut rng, if thorough { 30000 } else { 2000 }, 40);
-    eprintln!("C16 gen: {sc} scenarios, {np} large-population cases, {n} exhaustive core cases, {nr} exhaustive receive-path cases, {ns} exhaustive sink/quiet cases, {nu} exhaustive unwinding-drop cases");
+    gen_chan_pair_random(w, &mut rng, if thorough { 10000 } else { 1000 }, 30);
+    eprintln!("C16 gen: {sc} scenarios, {nb} backlog cases, {n2} exhaustive two-channel cases, {np} large-population cases, {n} exhaustive core cases, {nr} exhaustive receive-path cases, {ns} exhaustive sink/quiet cases, {nu} exhaustive unwinding-drop cases");
 }
 
 fn gen(a: &Args) {
